@@ -32,8 +32,9 @@ VARIABLES mem,   \* the specification's state of the locations of the round
           lin,   \* taken effect, not yet returned: <<g, k>> -> [op, resp]
           via,   \* how the round's requests were made: "" (core.Location), "system", "http"
           half,  \* deviation only: events that have found their rules but not yet checked the disable flags
+          ttl,   \* the round's location-cache TTL ("" when the requests do not go through a System)
           l
-vars == <<mem, pend, lin, via, half, l>>
+vars == <<mem, pend, lin, via, half, ttl, l>>
 
 Locs == {"A", "B", "C", "D"}
 NoG(m) == [a \in DOMAIN m |-> {}]
@@ -63,25 +64,25 @@ RespMatch(op, r, lr, whole) ==
 
 Without1(f, key) == [x \in DOMAIN f \ {key} |-> f[x]]
 
-Init == l = 2 /\ mem = <<>> /\ pend = <<>> /\ lin = <<>> /\ via = "" /\ half = <<>>
+Init == l = 2 /\ mem = <<>> /\ pend = <<>> /\ lin = <<>> /\ via = "" /\ half = <<>> /\ ttl = ""
 
 Round(e) == /\ e.ev = "round"
-            /\ mem' = [a \in Rng(e.locs) |-> <<>>] /\ pend' = <<>> /\ lin' = <<>> /\ via' = e.via /\ half' = <<>> /\ l' = l + 1
+            /\ mem' = [a \in Rng(e.locs) |-> <<>>] /\ pend' = <<>> /\ lin' = <<>> /\ via' = e.via /\ half' = <<>> /\ ttl' = e.ttl /\ l' = l + 1
 Call(e) == /\ e.ev = "call"
            /\ pend' = pend @@ (<<e.g, e.k>> :> OpOf(e))
-           /\ l' = l + 1 /\ UNCHANGED <<mem, lin, via, half>>
+           /\ l' = l + 1 /\ UNCHANGED <<mem, lin, via, half, ttl>>
 \* the instant at which a pending operation takes effect
 Lin == \E key \in DOMAIN pend :
           \E o \in Step(mem, Ro(mem), pend[key], NoG(mem)) :
              /\ mem' = o.mem
              /\ lin' = lin @@ (key :> [op |-> pend[key], resp |-> o.resp, whole |-> TRUE])
              /\ pend' = Without1(pend, key)
-             /\ UNCHANGED <<l, via, half>>
+             /\ UNCHANGED <<l, via, half, ttl>>
 Ret(e) == /\ e.ev = "ret"
           /\ <<e.g, e.k>> \in DOMAIN lin
           /\ RespMatch(lin[<<e.g, e.k>>].op, lin[<<e.g, e.k>>].resp, e.res, lin[<<e.g, e.k>>].whole)
           /\ lin' = Without1(lin, <<e.g, e.k>>)
-          /\ l' = l + 1 /\ UNCHANGED <<mem, pend, via, half>>
+          /\ l' = l + 1 /\ UNCHANGED <<mem, pend, via, half, ttl>>
 \* everything has returned: memory and storage agree with the order chosen
 Final(e) == /\ e.ev = "final"
             /\ DOMAIN pend = {} /\ DOMAIN lin = {}
@@ -89,7 +90,10 @@ Final(e) == /\ e.ev = "final"
                                      /\ \A id \in DOMAIN mem[a] : id \in DOMAIN e.mem[a] /\ Norm(e.mem[a][id]) = mem[a][id].body
                                      /\ DOMAIN e.mem[a] \subseteq DOMAIN mem[a]
             /\ DOMAIN half = {}
-            /\ l' = l + 1 /\ UNCHANGED <<mem, pend, lin, via, half>>
+            \* C17, single load: a location that stays cached (TTL forever) was loaded once, however many
+            \* first requests arrived together (newlocs: instances the System has made in this round)
+            /\ (via # "" /\ ttl = "forever" /\ e.newlocs >= 0) => e.newlocs <= Cardinality(DOMAIN mem)
+            /\ l' = l + 1 /\ UNCHANGED <<mem, pend, lin, via, half, ttl>>
 
 \* Named deviation D_EVENT_NOT_ATOMIC (known finding, C12): ProcessEvent finds the matching rules under the
 \* state lock, releases it, and only then looks up each rule's disable flag; a rule that is disabled and is
@@ -103,7 +107,7 @@ Find1 == \E key \in DOMAIN pend :
               IN /\ ~vs.err
                  /\ half' = half @@ (key :> [op |-> op, cands |-> cands, locs |-> vs.locs])
                  /\ pend' = Without1(pend, key)
-           /\ UNCHANGED <<mem, lin, via, l>>
+           /\ UNCHANGED <<mem, lin, via, l, ttl>>
 Check2 == \E key \in DOMAIN half :
             /\ LET op == half[key].op
                    found == {c \in half[key].cands : ~RuleDisabled(mem[op.loc], op.now, c.id)}
@@ -112,7 +116,7 @@ Check2 == \E key \in DOMAIN half :
                IN lin' = lin @@ (key :> [op |-> op, whole |-> TRUE,
                                          resp |-> [R0 EXCEPT !.found = {[id |-> c.id, bss |-> c.bss, body |-> Null] : c \in found}, !.tree = tree]])
             /\ half' = Without1(half, key)
-            /\ UNCHANGED <<mem, pend, via, l>>
+            /\ UNCHANGED <<mem, pend, via, l, ttl>>
 
 Next == \/ (l <= Len(Trace) /\ (Round(Trace[l]) \/ Call(Trace[l]) \/ Ret(Trace[l]) \/ Final(Trace[l])))
         \/ (l <= Len(Trace) /\ (Lin \/ Find1 \/ Check2))
